@@ -80,7 +80,8 @@ impl Scenario for Conform {
     fn rule(&self) -> String {
         "case = conforming multi-link stream from the upstream model (swarm: 1-12 links, merge order, \
          barrels, formats 0/2, RDH v6/v7, pages, continuation, no-data TDHs, internal/physics triggers, \
-         CDWs, padding, status bits, ALPIDE content in stave mode; some cases force 99/100/101/200 packets) \
+         CDWs, padding, status bits, ALPIDE content in stave mode; some cases force 99/100/101/200 packets, 1 in 25 \
+         has 13-24 links, 1 in 20 pages filled to exactly 507/508/509 words, a full 8 KiB page and the 10 000-byte limit) \
          x one of the five check modes x {plain,-m,-E n,-S} x {file,pipe} x seeded schedule policy x \
          queue-capacity cap x benign I/O faults. Non-trivial: >= 4 managed threads ran (reader, analysis, \
          >= 1 validator, collector). Distinct: (input hash, schedule trace hash)."
@@ -106,6 +107,21 @@ impl Scenario for Conform {
             cfg.data_pages = (1, 2);
             cfg.data_words = (0, 4);
             cfg.triggers = (1, 2);
+        }
+        let mut shape = "";
+        if force_count.is_none() && rng.chance(1, 25) {
+            // more links (FEE IDs in stave mode) than any sample has: 13..24 validators
+            cfg.n_links = rng.range(13, 24) as usize;
+            cfg.hbfs = (1, 2);
+            shape = " many-links";
+        } else if force_count.is_none() && !stave && rng.chance(1, 20) {
+            // pages filled to exactly the sizes around the limits: a full 8 KiB page (508 slots of data format
+            // 0), one word less / more, the largest payload the offset field may describe (10 000 bytes)
+            cfg.fill_page_words = if cfg.data_format == 0 { *rng.pick(&[507usize, 508, 509, 624, 625]) } else { *rng.pick(&[507usize, 508, 509, 812, 999, 1000]) };
+            cfg.n_links = rng.range(1, 3) as usize;
+            cfg.hbfs = (1, 3);
+            cfg.p_no_data = cfg.p_no_data.min(300);
+            shape = " full-pages";
         }
         let mut st = gen_conforming(&cfg, &mut rng);
         if let Some(n) = force_count {
@@ -170,6 +186,7 @@ impl Scenario for Conform {
         if force_count.is_some() {
             label.push_str(" batch-boundary");
         }
+        label.push_str(shape);
         Trial::Conform { spec, label }
     }
 }
